@@ -23,20 +23,54 @@ def _is_info_col1(P, fn, o, depth=0):
             k = fn.param_index_of_alloca(p)
             sts = [s for s in fn.all_insts() if s.op == "store" and s["ptr"].get("k") == "inst" and s["ptr"]["id"] == p.id]
             return bool(sts) and all(_is_info_col1(P, fn, s["val"], depth + 1) for s in sts) if depth < 6 else False
-        for t in flow.origins(fn, i["ptr"]):
-            if t[0] == "gaddr" and t[1] == "bidib_response_info":
-                # column: constant part of the address modulo the row size
-                g = fn.resolve(i["ptr"])
-                row = None
-                off = 0
-                while g is not None and g.op == "getelementptr":
-                    off += g["off"]
-                    for x in g["idx"]:
-                        row = x["scale"]
-                    g = fn.resolve(g["base"])
-                if not row:
+        # address = bidib_response_info + row * rowsize + column * size, possibly through a row pointer kept in a single-assignment local
+        q = i["ptr"]
+        row = None
+        off = 0
+        for _ in range(12):
+            q = rules.strip_casts(fn, q)
+            if q.get("k") == "global":
+                if q.get("name") != "bidib_response_info" or not row:
                     return False
-                return (off % row) // i["size"] == 1
+                return ((off + q.get("off", 0)) % row) // i["size"] == 1
+            g = fn.resolve(q)
+            if g is None:
+                return False
+            if g.op == "getelementptr":
+                off += g["off"]
+                for x in g["idx"]:
+                    row = x["scale"]
+                q = g["base"]
+            elif g.op == "load":
+                q2 = rules.resolve_local(fn, q)
+                if q2 is q or (q2.get("k") == "inst" and q2["id"] == g.id):
+                    # a row pointer re-assigned when the next entry is looked at: every assignment is the start of a table row
+                    al = fn.resolve(g["ptr"])
+                    if al is None or al.op != "alloca" or fn.param_index_of_alloca(al) is not None or rules._escapes(fn, al) or not row is None or depth > 2:
+                        return False
+                    sts = [x for x in fn.all_insts() if x.op == "store" and x["ptr"].get("k") == "inst" and x["ptr"]["id"] == al.id]
+                    return bool(sts) and (off // i["size"]) == 1 and all(_is_row_start(fn, x["val"]) for x in sts)
+                q = q2
+            else:
+                return False
+    return False
+
+
+def _is_row_start(fn, q):
+    """pointer operand is &bidib_response_info[row][0]"""
+    off = 0
+    row = None
+    for _ in range(8):
+        q = rules.strip_casts(fn, q)
+        if q.get("k") == "global":
+            return q.get("name") == "bidib_response_info" and bool(row) and (off + q.get("off", 0)) % row == 0
+        g = fn.resolve(q)
+        if g is None or g.op != "getelementptr":
+            return False
+        off += g["off"]
+        for x in g["idx"]:
+            row = x["scale"]
+        q = g["base"]
     return False
 
 
@@ -50,6 +84,13 @@ def _mentions(P, f, o, pred, depth=0):
     i = f.insts[o["id"]]
     if pred(i):
         return True
+    if i.op == "load" and i["ptr"].get("k") == "inst" and f.insts[i["ptr"]["id"]].op == "alloca":
+        # a local assigned in several places (`info = table[first->type]; ... info = table[next->type];`): every assignment mentions it
+        al = f.insts[i["ptr"]["id"]]
+        if f.param_index_of_alloca(al) is not None or rules._escapes(f, al):
+            return False
+        sts = [x for x in f.all_insts() if x.op == "store" and x["ptr"].get("k") == "inst" and x["ptr"]["id"] == al.id]
+        return len(sts) > 1 and all(_mentions(P, f, x["val"], pred, depth + 1) for x in sts)
     if i.op == "call":
         return any(_mentions(P, f, a, pred, depth + 1) for a in i.args)
     if i.op == "load":
@@ -72,6 +113,11 @@ def _release_test(P, f, cond, truth, depth=0):
     if c.op == "load":
         o2 = rules.resolve_local(f, cond)
         return o2 != cond and _release_test(P, f, o2, truth, depth + 1)
+    if c.op == "phi" and c["ty"] == "i1":
+        # `!matched && age >= limit`: true only through the one incoming value that is not the constant false
+        want = 1 if truth else 0
+        alive = [v for b, v in c["incoming"] if not (v.get("k") == "const" and (v.get("v", 0) & 1) != want)]
+        return len(alive) == 1 and alive[0].get("k") == "inst" and _release_test(P, f, alive[0], truth, depth + 1)
     if c.op == "icmp" and c["pred"] in ("eq", "ne") and rules.const_of(f, c["b"]) == 0 and f.resolve(rules.strip_casts(f, c["a"])) is not None \
             and f.resolve(rules.strip_casts(f, c["a"])).op in ("icmp", "fcmp", "xor", "load", "call"):
         inner = f.resolve(rules.strip_casts(f, c["a"]))
@@ -509,6 +555,9 @@ def true_result_points(f):
             src = rules.load_source(f, i["val"])
             if src and src[0] == "alloca":
                 cells.add(src[1])
+            elif rules.const_of(f, i["val"]) is None:
+                # `return verdict == ADMITTED;` / `return a && b;`: what the value being true implies is looked up at the return itself
+                out.append((i, "computed result"))
     for i in f.all_insts():
         if i.op == "store" and i["ptr"].get("k") == "inst" and i["ptr"]["id"] in cells:
             v = rules.const_of(f, i["val"])
